@@ -308,6 +308,10 @@ PROPS = {
     "C17": {
         "class_prefixes": ["c17-", "harness-crash"],
         "subs": [
+            {"name": "chmax", "n_quick": 0, "n_thorough": 0, "oracle": False,
+             "rule": "the channel-max clause at its far end: on a real Connection (facade) that agreed on channel-max M in {65535, 300, 255, 256, 0, 1, ..} "
+                     "sessions are allocated until one is refused (65536 live sessions for M = 65535): every channel handed out is new and within 0..=M, "
+                     "exactly M+1 fit, the next is refused, and after one in the middle is given back exactly one more fits"},
             {"name": "c17", "n_quick": 1500, "n_thorough": 30000, "model": "coq/Conn/Timers.v",
              "rule": "local idle-time-out from {unset, 0, 34, 50, 98, 202, 1002} ms, peer idle-time-out from {unset, 0, 16, 24, 40, 96, 200, 1000} ms; "
                      "0-2 delays, the peer's open, then 1..8 (thorough 1..14) of wait / peer empty frame / close / close_with_error / peer close, "
@@ -332,6 +336,10 @@ PROPS = {
     "C09": {
         "class_prefixes": ["c09-", "harness-crash"],
         "subs": [
+            {"name": "rres", "n_quick": 20, "n_thorough": 400, "oracle": False,
+             "rule": "a receiving link (manual credit) that receives 0..4 deliveries, is detached and resumed: the scripted sender's attach of the resumed link names "
+                     "an initial-delivery-count (the old one, the old one plus the deliveries made, or another value, also next to 2^32): the first flow after the "
+                     "resume reports exactly that delivery-count, and every delivery within the limit of that flow is delivered"},
             {"name": "rx", "n_quick": 1500, "n_thorough": 40000, "model": "coq/Link/Receiver.v",
              "rule": "receiving link: credit mode from {manual, auto:1,2,3,5, auto:4..12}, rcv-settle-mode first/second, initial delivery-count near 0, 2^31, 2^32; "
                      "3..16 (thorough 3..30) of: a delivery (message generated from its id, cut at random byte offsets into 1..7 frames, empty frames, optional fields "
